@@ -91,6 +91,21 @@ def main():
                 h.fail('mixed_rank_graph.reduced_only_by_cap', bwit, sorted(map(sorted, exp - unordered_b)))
         if not unordered <= exp:
             h.fail('mixed_rank_graph.evaluated_subset_of_requested', wit, sorted(map(sorted, unordered - exp)))
+        # same process, same columns, a different label column: the requested pairs follow the label of THIS call
+        others = [c for c in cols if c != 'label' and ' AND_REL ' not in c]
+        if others and heuristic != 'Constant':
+            label2 = others[int(rng.integers(0, len(others)))]
+            args2 = make_args(heuristic=heuristic, target_ranking_only='False' if pairwise else 'True', combination_number_upper_bound=10 ** 6,
+                              label_column=label2)
+            CR.GLOBAL_PRIOR_COMB_COUNTS.clear()
+            df = pd.DataFrame({c: rng.integers(0, 3, nrows).astype(str) for c in cols})
+            rows2 = CR.mixed_rank_graph(df, args2, InlinePool(), Pbar()).triplet_scores
+            got2 = {frozenset((a, b)) for a, b, _ in rows2}
+            exp2 = expected_pairs(cols, label2, pairwise, mr3)
+            h.record(('relabel', case), True)
+            if got2 != exp2:
+                h.fail('mixed_rank_graph.pairs_follow_the_label_of_the_call', dict(wit, label_column=label2, previous_label='label'),
+                       f'missing {sorted(map(sorted, exp2 - got2))[:6]} extra {sorted(map(sorted, got2 - exp2))[:6]}')
     h.bounded_note('exact pair sets / mirroring / cap on the real get_combinations_from_columns and mixed_rank_graph '
                    '(in-process pool), names with spaces, dashes, " AND ", unicode; label anywhere',
                    f'{n_cases} random configurations, 1..7 columns', h.evaluations)
